@@ -4,7 +4,7 @@ open ChemModel.Proto ChemModel.RSysGraph Lean
 
 /-! JSON conventions (arrays only, so that both sides print the same text)
   stoich  = [["A",1],["B",2]]
-  rxn     = [reac, prod, inact_reac, inact_prod, param|null, name|null]
+  rxn     = [reac, prod, inact_reac, inact_prod, param|null, name|null, paramB|null, isEq]
   subst   = [name, comp|null]          comp = [[k, v], ...]
   system  = {"rxns": [rxn...], "subs": [[key, subst]...]}
 -/
@@ -21,7 +21,13 @@ def asStoich (v : Json) : Except String Stoich := do
 
 def asRxn (v : Json) : Except String Rxn := do
   match v with
-  | .arr #[a, b, c, d, p, n] =>
+  | .arr #[a, b, c, d, p, n, pb, isEq] =>
+    let paramB ← match pb with
+      | .null => pure none
+      | _ => do pure (some (← asInt pb))
+    let eq ← match isEq with
+      | .bool b => pure b
+      | _ => .error "!bad-arg:isEq"
     let param ← match p with
       | .null => pure none
       | _ => do pure (some (← asInt p))
@@ -29,7 +35,7 @@ def asRxn (v : Json) : Except String Rxn := do
       | .null => pure none
       | _ => do pure (some (← asStr n))
     pure { reac := ← asStoich a, prod := ← asStoich b, inactReac := ← asStoich c, inactProd := ← asStoich d,
-           param := param, name := name }
+           param := param, name := name, paramB := paramB, isEq := eq }
   | _ => .error "!bad-arg:rxn"
 
 def asComp (v : Json) : Except String Comp := do
@@ -96,7 +102,8 @@ def jStoich (s : Stoich) : Json := .arr (s.map fun kv => Json.arr #[.str kv.1, t
 def jOptInt : Option Int → Json | none => .null | some i => toJson i
 def jOptStr : Option String → Json | none => .null | some s => .str s
 def jRxn (r : Rxn) : Json :=
-  .arr #[jStoich r.reac, jStoich r.prod, jStoich r.inactReac, jStoich r.inactProd, jOptInt r.param, jOptStr r.name]
+  .arr #[jStoich r.reac, jStoich r.prod, jStoich r.inactReac, jStoich r.inactProd, jOptInt r.param, jOptStr r.name,
+         jOptInt r.paramB, .bool r.isEq]
 def jComp (c : Comp) : Json := .arr (c.map fun kv => Json.arr #[toJson kv.1, toJson kv.2]).toArray
 def jSubst (s : Subst) : Json := .arr #[.str s.name, match s.comp with | none => .null | some c => jComp c]
 def jSys (s : RSys) : Json :=
@@ -159,7 +166,17 @@ def h : Handler := fun op j =>
   | "categorize" => do
       match categorize (← getSys j "sys") (← getChecks j) with
       | .ok c => pure (Json.arr #[jStrs c.accumulated, jStrs c.depleted, jStrs c.unaffected, jStrs c.nonparticipating]).compress
-      | .error c => pure (checkName c)
+      | .error (.check c) => pure (checkName c)
+      | .error (.expand .rateNeeded) => pure "ValueError:rate"
+      | .error (.expand .noEffect) => pure "ValueError:no_effect"
+  | "as_reactions" => do
+      let r ← match j.getObjVal? "rxn" with
+        | .ok v => asRxn v
+        | _ => .error "!bad-arg:rxn"
+      match r.asReactions with
+      | .ok (f, b) => pure (Json.arr #[jRxn f, jRxn b]).compress
+      | .error .rateNeeded => pure "ValueError:rate"
+      | .error .noEffect => pure "ValueError:no_effect"
   | "identify_equilibria" => do
       pure (Json.arr ((identifyEquilibria (← getSys j "sys")).map fun p => Json.arr #[toJson p.1, toJson p.2]).toArray).compress
   | "participation" => do
